@@ -233,7 +233,8 @@ CHECKS = {
                 "small systems: z3 proves the returned assignments satisfy every equation for all parameter values; "
                 "uniqueness/integrality oracle by exact rational elimination."
                 " Target sets include the empty set."
-                " Over-determined parametric systems.",
+                " Over-determined parametric systems."
+                " Powers whose base or exponent mixes a target with a non-target term (38 skeletons in all).",
         "design_ref": "DESIGN.md §4 C15",
         "note": "Trusted: evaluator (C02) for coefficient expressions, z3, the harness's rational row-reduction oracle. The "
                 "Gaussian-elimination claim is bounded by the entry box.",
@@ -268,7 +269,10 @@ CHECKS = {
                 "associativity on triples, reverse/involution (anti)automorphisms, dual, squared norm, inverse*blade = 1 where "
                 "the blade is non-null; linearity in each argument on multivectors with symbolic coefficients (metrics in "
                 "{1,-1,0,2}); the bit kernels on symbolic bitmaps; ==/hash/bool against coefficient-wise comparison."
-                " Two-component vector / pseudovector blades: an inverse, if returned, must be one (replayed with plain rationals).",
+                " Two-component vector / pseudovector blades: an inverse, if returned, must be one (replayed with plain rationals)."
+                " Constructor family: mappings keyed by index tuples in every order (one or two keys of the same blade) or by "
+                "bitmap, with symbolic coefficients that may be zero or cancel: z3 proves per path that the stored coefficient "
+                "is the signed sum and that bool / ==0 / !=0 agree with it (no explicit zero is stored).",
         "design_ref": "DESIGN.md §4 C18",
         "note": "Trusted: the list-based blade product oracle, proxies, z3 (NIA). Diagonal metrics only. With bilinearity the "
                 "blade-wise claims extend to all multivectors of the covered dimensions.",
